@@ -25,5 +25,13 @@ CHECKS = {
          "technique": "TLC-explored call histories of spec/IR.tla replayed with a replay-only CallbackListener registered; TLC trace validation of C19_MirrorExact / C19_BeforeEffect / C19_Transparent",
          "text": "Every (state, call) pair TLC explores in the IR scopes is executed with a listener that only replays announcements; TLC compares the listener's mirror with the membership-level abstraction of the observed state after every call (a missing, phantom or wrong announcement makes them differ), checks the bit recorded inside each callback that the announced change was not yet visible, and checks that the outcome and state are identical under the listener configurations none / mirror / mirror+passive / passive+mirror.",
          "note": _IR_NOTE + " The mirror is order-insensitive (announcements carry no positions); an outer pin is identified by the pin object the announcement denotes. The model-side sufficiency of the announcement design (Listener.tla) is listed in DESIGN.md as future work."},
+ "C11": {"category": "model_checking", "design_ref": "5 (C11), 4 (Hier, Gen)",
+         "technique": "TLC enumerates designs as the reachable states of build scopes of spec/MC.tla (BFS + -simulate) and the queries to ask; the elaboration oracle of spec/Hier.tla (Paths/Occ/HName/Valid/Unique) evaluated by TLC judges the observed answers; random walks interleave edits, renames and queries on the same objects",
+         "text": "The expected answer of every hierarchical query is defined once in TLA+ as the set of instance paths below the top instance and the ports/pins/cables/wires inside each (Hier.tla), independent of spydrnet's work-lists. TLC generates the designs (valid construction steps in canonical order, shared definitions at two depths, named/unnamed instances, destructive edits) and the (function, root, recursive) combinations; each is asked of the real code and TLC compares the returned references as a multiset with the oracle, checks names, validity, uniqueness (instance references) and flyweight identity, also for references held across edits.",
+         "note": _IR_NOTE + " Exactly-once is demanded for netlist, library, definition, own-kind element, element-collection and reference roots; uniqueness only for references to instances (see DESIGN.md)."},
+ "C12": {"category": "model_checking", "design_ref": "5 (C12), 4 (Hier)",
+         "technique": "TLC-generated designs and start points; hierarchical nets defined in spec/Hier.tla as a fixpoint over port boundaries (Net), evaluated by TLC on the observed pre-state and compared with get_hwires/get_hpins answers",
+         "text": "Net(x) is defined in TLA+ as the least set of hierarchical wires closed under 'joined through an instance port boundary'; TLC checks on the model that all members of a net have the same closure, enumerates the designs and every hierarchical wire, cable, pin and port of each as a start point, and judges the implementation's answers for selection ALL / INSIDE / OUTSIDE and get_hpins(wire) against that definition.",
+         "note": _IR_NOTE},
 }
 NOT_APPLICABLE = {}
